@@ -88,7 +88,7 @@ Section P.
   (* ---------------------------------------------------------------- *)
   (* without a restart or an ALTER the tracker of every table only moves forward, across transactions,
      rollbacks, branch switches and tables: generated values are strictly increasing per table *)
-  Definition plain_op (o : sop) : bool := match o with SRestart | SAlter _ _ => false | _ => true end.
+  Definition plain_op (o : sop) : bool := match o with SRestart | SAlter _ _ | SRecreate _ => false | _ => true end.
 
   Fixpoint gens (t : N) (sc : list (N * sop)) (w : srv) : list N :=
     match sc with
@@ -145,6 +145,22 @@ Section P.
   Qed.
 
   (* a value generated for one table never depends on the other tables' sequences *)
+  (* DROP + CREATE of a table on one branch: the sequence continues from the largest counter the OTHER
+     branches hold for that table name (1 if none has it); no branch is ahead of the tracker afterwards *)
+  Theorem recreate_keeps_max_of_others s t w :
+    let w1 := commit_s s w in
+    let b := sbr w1 s in
+    let w' := snd (sstep branches tables autos s (SRecreate t) w) in
+    cur w' t = N.max 1 (max_over (fun b' => if b' =? b then 0 else bval w1 b' t) branches)
+    /\ (forall b', In b' branches -> bval w' b' t <= cur w' t).
+  Proof.
+    cbn zeta. unfold sstep. cbn [snd cur bval]. unfold upd1, upd2. rewrite !N.eqb_refl. split.
+    - f_equal. apply max_over_ext. intros b0. destruct (b0 =? sbr (commit_s s w) s); reflexivity.
+    - intros b' Hb'.
+      pose proof (max_over_ge (fun b'0 => if (b'0 =? sbr (commit_s s w) s) && true then 0 else bval (commit_s s w) b'0 t) branches b' Hb') as Hm.
+      cbn beta in Hm. eapply N.le_trans; [exact Hm | apply N.le_max_r].
+  Qed.
+
   Theorem tables_independent s t t' w :
     t <> t' -> cur (snd (sstep branches tables autos s (SGen t) w)) t' = cur w t'.
   Proof.
